@@ -4,6 +4,8 @@ Monitor shape: history + FIFO window model.  Structural bounds and per-filter co
 after EVERY call; for every key that was absent just before its add, presence is asserted immediately and for at least
 (max_queue_size-1)*est_elements further effective insertions (lower bound only), unless the caller popped or pushed explicitly.
 """
+import math
+
 from .. import bl, gen, refimpl
 from ..core import Prop, Workload
 
@@ -204,6 +206,46 @@ def wl_grid(ctx, rng, case):
         sc.cleanup()
 
 
+def wl_est_sweep(ctx, rng, case):
+    """EVERY est_elements from 1 upwards with queue sizes 1..3: forced distinct additions until the queue has rotated at least once more than
+    it can hold; queue length and per-filter counts (from the exported stream) are checked at every filter boundary, presence right after each add"""
+    import probables as P
+
+    est = case.index + 1
+    Q = 1 + (case.index * 7 + case.index // 3) % 3
+    rate = rng.choice([0.1, 0.05, 0.01])
+    case.desc = {"est": est, "queue": Q, "rate": rate, "kind": "every est_elements"}
+    if refimpl.bloom_sizing_simple(est, rate) is None:
+        return
+    f = P.RotatingBloomFilter(est_elements=est, false_positive_rate=rate, max_queue_size=Q)
+    forced = case.index % 2 == 0
+    total = est * Q + est + 2
+    eff = 0
+    i = 0
+    while eff < total and i < 3 * total + 50:
+        key = f"rsweep-{est}-{i}"
+        i += 1
+        present = (not forced) and f.check(key)
+        f.add(key, force=True) if forced else f.add(key)
+        if present:
+            continue
+        eff += 1
+        ctx.counters["oracle_evaluations"] += 1
+        if not f.check(key):
+            ctx.fail(f"a key that was absent just before its add is absent right after it (est={est}, queue={Q}, insertion {eff})", key=key)
+        if eff % est in (0, 1) or eff == total:
+            st, counts = counts_of(f)
+            ctx.check(1 <= len(counts) <= Q, f"queue holds {len(counts)} filters, limit {Q} (est={est}, insertion {eff})", counts=counts)
+            ctx.check(all(c <= est for c in counts), f"an internal filter holds more than est_elements insertions (est={est}, queue={Q}, insertion {eff})", counts=counts)
+            want_len = min(Q, max(1, math.ceil(eff / est)))
+            ctx.check(len(counts) == want_len or (eff % est == 0 and len(counts) == min(Q, want_len + 1)),
+                      f"queue length after {eff} forced / effective insertions is not min(queue, ceil(I/est)) (est={est}, queue={Q})", got=len(counts), want=want_len)
+            ctx.count("sweep_boundary_checks")
+    ctx.count("est_sweep_cases")
+    ctx.maximum("est_sweep_max_est_elements", est)
+    case.nontrivial = True
+
+
 PROP = Prop(
     "C10",
     "exploration",
@@ -214,6 +256,7 @@ PROP = Prop(
     workloads=[
         Workload("grid", wl_grid, quick=162, thorough=162),
         Workload("history", wl_history, quick=1200, thorough=400000),
+        Workload("est_sweep", wl_est_sweep, quick=320, thorough=1500),
     ],
     assumptions=["only the lower bound of the retention window is asserted (Bloom false positives may keep a key longer); a key must be present while FEWER than (Q-1)*est further effective insertions happened ('until' read strictly)",
                  "the lazy-FIFO layout model is a diagnostic (counted in evidence), not a verdict: the statement does not pin when a rotation happens",
